@@ -167,6 +167,27 @@ def case_scalar_boundary(ctx, skip, via):
         ctx.equal("prescribed_values_of_scalar_boundary", ext0, exp)
 
 
+def case_three_conditions(ctx, mode):
+    """Boundary(fx, fy, fz) on a 3-D mesh: all three coordinate conditions are combined (and: the corner point; or: the three planes)"""
+    with ctx.concrete():
+        m = fem.Cube(n=3)
+        region = fem.RegionHexahedron(m)
+        field = fem.FieldContainer([fem.Field(region, dim=3)])
+    sym_values(ctx, field)
+    X = m.points
+    val = ctx.var("val", -1, 1)
+    b = fem.Boundary(field[0], fx=0.0, fy=lambda y: np.isclose(y, 1.0), fz=0.5, mode=mode, value=val)
+    cx, cy, cz = np.isclose(X[:, 0], 0.0), np.isclose(X[:, 1], 1.0), np.isclose(X[:, 2], 0.5)
+    sel = (cx & cy & cz) if mode == "and" else (cx | cy | cz)
+    ctx.check_concrete("selected_points_combine_all_three_conditions", sorted(int(p_) for p_ in b.points) == sorted(int(p_) for p_ in np.where(sel)[0]), "points %s" % sorted(int(p_) for p_ in b.points))
+    dof0, dof1 = fem.dof.partition(field, {"b": b})
+    exp0 = sorted(3 * int(p_) + c for p_ in np.where(sel)[0] for c in range(3))
+    ctx.check_concrete("partition_prescribes_the_selected_points", [int(k) for k in dof0] == exp0)
+    ext0 = np.asarray(fem.dof.apply(field, {"b": b}, dof0))
+    if len(ext0) == len(exp0):
+        ctx.equal("prescribed_values", ext0, np.array([val] * len(exp0), dtype=object if ctx.sym else float))
+
+
 def case_array_values(ctx):
     """array-valued boundary values of shape (dim,) and (npoints_selected, dim)"""
     with ctx.concrete():
@@ -370,6 +391,8 @@ def cases(tier):
     for v in ("plain", "cellless", "mixed", "scalar_same_mesh"):
         out.append(("partition_masks", case_partition_masks, {"variant": v}))
     out.append(("array_values", case_array_values, {}))
+    for mode in ("and", "or"):
+        out.append(("three_conditions", case_three_conditions, {"mode": mode}))
     for which in ("uniaxial", "biaxial"):
         for cl in (False, True):
             out.append(("loadcase_explicit", case_loadcase_explicit, {"which": which, "clamped": cl}))
